@@ -685,6 +685,54 @@ def search(res, tier, boost=False):
             if stop:
                 break
     res.bump('search_deep_segments', n_deep)
+    # 2c. the request as the initial-potential code makes it: end points are the BOUNDARY PARAMETRISATION's coordinates
+    # gamma(c), gamma(d) of a boundary element [c, d] (binary64; on the pi-square they differ by an ulp or two from the
+    # domain mesh's own bisection arithmetic), handed to the public helper; afterwards both end points must be
+    # retrievable with vertex_from_coords and exactly one leaf has the segment as an edge (compared with the
+    # tolerance the code itself uses, rel 1e-9)
+    import src.parametrization as Pm
+    import src.initial_mesh as Im
+    from ..slchecks import addr_interval
+    import contextlib, io
+    n_par = 0
+    for cname, helper in (('UnitSquare', 'UnitSquareBoundaryRefined'), ('PiSquare', 'PiSquareBoundaryRefined'), ('LShape', 'LShapeBoundaryRefined')):
+        with contextlib.redirect_stdout(io.StringIO()):
+            gamma = getattr(Pm, cname)()
+        for pc in range(len(gamma.pw_gamma)):
+            plen = float(gamma.pw_start[pc + 1] - gamma.pw_start[pc])
+            l0 = 1 if plen > 1.5 and cname == 'LShape' else 0       # long sides of the L-shape: two unit pieces
+            for l in range(l0, (7 if thorough or boost else 6)):
+                ks = range(2**l) if (l <= 5 or thorough or boost) else sorted(rng.sample(range(2**l), 16))
+                for k in ks:
+                    c, d = addr_interval(gamma, (pc, l, k))
+                    v0 = gamma.pw_gamma[pc](c)
+                    v1 = gamma.pw_gamma[pc](d)
+                    if (k + l) % 2:
+                        v0, v1 = v1, v0
+                    ctx = dict(curve=cname, piece=pc, l=l, k=k, v0=[float(np.asarray(v0).flatten()[0]), float(np.asarray(v0).flatten()[1])],
+                               v1=[float(np.asarray(v1).flatten()[0]), float(np.asarray(v1).flatten()[1])], request='as InitialOperator.linform makes it')
+                    n_par += 1
+                    res.count(('search-bdr-param', cname, pc, l, k), l >= 1)
+                    try:
+                        with contextlib.redirect_stdout(io.StringIO()):
+                            m = getattr(Im, helper)(v0, v1)
+                            w0, w1 = m.vertex_from_coords(v0), m.vertex_from_coords(v1)
+                    except Exception as exc:  # noqa: BLE001
+                        report(res, 'C16:targeting-raises:parametrisation-coordinates', dict(error=repr(exc)[:300], **ctx))
+                        break
+                    if w0 is None or w1 is None:
+                        report(res, 'C16:vertex-not-found:parametrisation-coordinates', dict(missing=['v0', 'v1'][0 if w0 is None else 1], **ctx))
+                        break
+                    close = lambda a_, b_: math.isclose(float(a_), float(b_), rel_tol=1e-9, abs_tol=1e-12)
+                    f0, f1 = np.asarray(v0).flatten(), np.asarray(v1).flatten()
+                    if not (close(w0.x, f0[0]) and close(w0.y, f0[1]) and close(w1.x, f1[0]) and close(w1.y, f1[1])):
+                        report(res, 'C16:vertex-not-found:parametrisation-coordinates', dict(got=[repr(w0), repr(w1)], **ctx))
+                        break
+                    owners = [e for e in m.leaf_elements if w0 in e.vertices and w1 in e.vertices]
+                    if len(owners) != 1:
+                        report(res, 'C16:targeting-edge-owners:parametrisation-coordinates', dict(owners=len(owners), **ctx))
+                        break
+    res.bump('search_parametrisation_segments', n_par)
     # 3. targeting on pre-refined meshes whose boundary leaf at the segment is not finer than the segment
     n_pre = (200 if thorough else 40) * mult
     for h in range(n_pre):
